@@ -198,6 +198,16 @@ func (x *Exec) call(fr *Frame, instr ssa.Instruction, c *ssa.CallCommon, st *Sta
 	if v, nst, ok := x.eng.builtinCall(x, fr, fullName(callee), args, resT, st, reach, pos); ok {
 		return v, nst
 	}
+	if x.flags["lockonly"] && callee.Blocks != nil && !x.eng.touchesLocks(x, callee, 0) {
+		// lock-discipline unit: a callee without lock operations or guarded accesses is irrelevant
+		nst := st.clone()
+		x.havocAll(nst)
+		var rets []Val
+		for i := 0; i < resT.Len(); i++ {
+			rets = append(rets, x.freshVal("hv_ret", resT.At(i).Type()))
+		}
+		return x.packResults(resT, rets), nst
+	}
 	if callee.Blocks != nil && x.depth < 6 && strings.HasPrefix(pkgOf(callee), modPath) {
 		// inline
 		x.depth++
